@@ -1,13 +1,13 @@
 """C05 Call arguments and results are routed to the right party (specs/core/TxnCore.tla, TxnCoreTrace.tla, TxnCoreMC.tla)."""
 from vlib.core import core_check
 
-OPTS = [dict(), dict(p_alias=0.7), dict(p_nonexcl=0.5, max_t=4), dict(sched='rr', nested=False, rdep_rel=False),
+OPTS = [dict(), dict(p_alias=0.7), dict(p_nonexcl=0.5, max_t=4), dict(p_nonexcl=0.6, p_orx=1.0, max_t=3, max_m=3), dict(sched='rr', nested=False, rdep_rel=False),
         # methods that pass (a function of) their own argument on to their callees
         dict(p_fwdarg=0.9, max_m=4, max_t=3, p_validate=0.3, p_alias=0.3, p_nonexcl=0.1, p_struct=0.3, _weight=2)]
 
 
 def run(rep):
-    core_check(rep, "C05", [dict(o) for o in OPTS], 80, 2000, nontrivial_key="impl_designs_built")
+    core_check(rep, "C05", [dict(o) for o in OPTS], 96, 2400, nontrivial_key="impl_designs_built")
     rep.coverage["rule"] = ("random designs from vlib/coregen.py's grammar built with the real API, every valuation of the "
                             "control inputs (or random ones when there are many), both directions bound by TxnCoreTrace; "
                             "clauses ArgRouting (exclusive: argument of the single active site; nonexclusive: OR-combiner over exactly the active sites) and ResultRouting (through provide() alias chains of length 0-3); distinct_nontrivial = built designs")
